@@ -38,12 +38,12 @@ Definition chk_authz (x : pystr * option pystr * msg * res msg) : bool := res_ms
 
 (* verify() with a request object: (rule jar | par, class, class the object is read as, content of the
    verified object, message before) vs the message afterwards (the verified object under the marker key) *)
-Definition request_case := (pystr * pystr * pystr * option msg * msg)%type.
+Definition request_case := (pystr * pystr * pystr * token * msg)%type.
 Definition m_request (x : request_case) : res msg :=
-  let '(rule, n, ron, payload, m) := x in
+  let '(rule, n, ron, t, m) := x in
   with_class n (fun c => with_class ron (fun roc =>
-    if str_eqb rule (PS "jar") then jar_verify c roc payload m
-    else if str_eqb rule (PS "par") then par_verify c roc payload m
+    if str_eqb rule (PS "jar") then jar_verify c roc (token_payload t) m
+    else if str_eqb rule (PS "par") then par_verify c roc (token_payload t) m
     else Unmodelled)).
 Definition chk_request (x : request_case * res msg) : bool := res_msg_eqb (m_request (fst x)) (snd x).
 
@@ -65,3 +65,24 @@ Definition m_rules (x : rules_case) : res (bool * msg) :=
   let '(rule, n, now, kw, m) := x in with_class n (fun c => class_rules rule c now kw m).
 Definition bm_eqb (a b : bool * msg) : bool := Bool.eqb (fst a) (fst b) && msg_eqb (snd a) (snd b).
 Definition chk_rules (x : rules_case * res (bool * msg)) : bool := res_eqb bm_eqb (m_rules (fst x)) (snd x).
+
+(* session.BackChannelLogoutRequest.verify with keyword arguments kw: generic check, LogoutToken().from_jwt(logout_token), the
+   token's own verify (all its rules, then allowed_sign_alg), the verified token stored under the marker key.
+   (class, LogoutToken class, now, kwargs without the key jar, the token symbolically, message before) *)
+Definition verified_logout_token : pystr := PS "__verified_logout_token".
+Definition kw_allowed (kw : msg) : res (option pystr) :=
+  match get "allowed_sign_alg" kw with
+  | None | Some VNone => Ok None
+  | Some (VStr a) => Ok (Some a)
+  | Some _ => Unmodelled
+  end.
+Definition bclogout_verify (c lc : mclass) (now : Z) (kw : msg) (t : token) (m : msg) : res msg :=
+  _ <- generic_verify c m ;;
+  allowed <- kw_allowed kw ;;
+  lt <- embedded_verify (fun o => logout_verify lc now (adel (PS "allowed_sign_alg") kw) o) allowed lc t ;;
+  Ok (aset verified_logout_token (VObj lt) m).
+Definition bclogout_case := (pystr * pystr * Z * msg * token * msg)%type.
+Definition m_bclogout (x : bclogout_case) : res msg :=
+  let '(n, ln, now, kw, t, m) := x in
+  with_class n (fun c => with_class ln (fun lc => bclogout_verify c lc now kw t m)).
+Definition chk_bclogout (x : bclogout_case * res msg) : bool := res_msg_eqb (m_bclogout (fst x)) (snd x).
